@@ -169,16 +169,34 @@ def close(a, b):
     return abs(float(a) - float(b)) <= TOL * max(1.0, abs(float(b)))
 
 
-_VERIFIED = set()  # follow-up checks that already passed in this process (identical state + arguments => identical result)
+_FOLLOW = {}  # (transform, state digest, arguments) -> findings of the follow-up calls; identical inputs => identical result
+
+
+def emit(col, key, detail, findings):
+    for suffix, extra, sig in findings:
+        col.violation(key + suffix, dict(detail, **extra), sig=sig)
 
 
 # ---------------------------------------------------------------------------
 # B-splines
 
-def bs_want_row(t, degree, lb, ub, extrap, icpt, v):
-    """expected output row for value v (None = NaN row); raise-mode callers never pass out-of-range values"""
+_BS_ROW = {}
+
+
+def bs_want_row(t, tk, degree, extrap, icpt, v):
+    """expected output row for value v (None = NaN row); raise-mode callers never pass out-of-range values.
+    tk = float key of the knot tuple t (cache key; hashing Fractions is slow)"""
     if v is None:
         return None
+    k = (tk, degree, extrap, icpt, float(v))
+    if k not in _BS_ROW:
+        if len(_BS_ROW) > 500000:
+            _BS_ROW.clear()
+        _BS_ROW[k] = _bs_want_row(t, degree, t[0], t[-1], extrap, icpt, v)
+    return _BS_ROW[k]
+
+
+def _bs_want_row(t, degree, lb, ub, extrap, icpt, v):
     if lb <= v <= ub:
         row = R.bspline_row(t, degree, v)
     elif extrap == "clip":
@@ -194,38 +212,86 @@ def bs_want_row(t, degree, lb, ub, extrap, icpt, v):
     return list(row) if icpt else list(row[1:])
 
 
-def bs_check_rows(col, key, detail, M, x, t, degree, lb, ub, extrap, icpt, phase):
-    """compare every row; one violation per (phase, failure class) with the first failing point"""
-    seen = set()
-    for r, v in enumerate(x):
-        want = bs_want_row(t, degree, lb, ub, extrap, icpt, v)
-        got = M[r]
-        inside = v is not None and lb <= v <= ub
-        if not row_close(got, want):
-            if v is None:
-                sig = "bs-null-row-not-nan"
-            elif inside:
-                sig = "bs-value"
-            else:
-                sig = {"clip": "bs-clip-row", "na": "bs-na-row-not-nan", "zero": "bs-zero-row", "extend": "bs-extend-row"}[extrap]
-                if extrap == "extend" and (t[degree + 1] == t[0] or t[-degree - 2] == t[-1]):
-                    sig = "bs-extend-row-knot-on-boundary"
-            if sig in seen:
-                continue
-            seen.add(sig)
-            col.violation("%s :: %s point=%s" % (key, phase, show(v)),
-                          dict(detail, phase=phase, point=fl(v), got_row=got.tolist(),
-                               want_row=None if want is None else [float(a) for a in want]), sig=sig)
-        elif inside and want is not None:
-            if icpt and abs(float(np.sum(got)) - 1.0) > TOL and "bs-not-partition-of-unity" not in seen:
-                seen.add("bs-not-partition-of-unity")
-                col.violation("%s :: %s point=%s rowsum" % (key, phase, show(v)), dict(detail, got_row=got.tolist()),
-                              sig="bs-not-partition-of-unity")
-            if np.any(got < -TOL) and "bs-negative" not in seen:
-                seen.add("bs-negative")
-                col.violation("%s :: %s point=%s negative" % (key, phase, show(v)), dict(detail, got_row=got.tolist()),
-                              sig="bs-negative")
-    return not seen
+_BS_WANT = {}
+
+
+def fkey(seq):
+    """cheap hashable key (hashing Fractions is slow)"""
+    return tuple(None if v is None else float(v) for v in seq)
+
+
+def bs_want(t, degree, extrap, icpt, xs):
+    tk = fkey(t)
+    k = (tk, degree, extrap, icpt, fkey(xs))
+    if k not in _BS_WANT:
+        if len(_BS_WANT) > 100000:
+            _BS_WANT.clear()
+        lb, ub = tk[0], tk[-1]
+        ncols = len(t) - degree - 1 - (0 if icpt else 1)
+        W, nanrow = want_matrix([bs_want_row(t, tk, degree, extrap, icpt, v) for v in xs], ncols)
+        inside = np.array([v is not None and lb <= float(v) <= ub for v in xs], dtype=bool)
+        _BS_WANT[k] = (W, nanrow, inside)
+    return _BS_WANT[k]
+
+
+def bs_rows_findings(M, x, t, degree, extrap, icpt, phase):
+    """compare every row; at most one finding per (phase, failure class), carrying the first failing point"""
+    W, nanrow, inside = bs_want(t, degree, extrap, icpt, tuple(x))
+    out, seen = [], set()
+    for r in bad_rows(M, W, nanrow):
+        v = x[r]
+        if v is None:
+            sig = "bs-null-row-not-nan"
+        elif inside[r]:
+            sig = "bs-value"
+        else:
+            sig = {"clip": "bs-clip-row", "na": "bs-na-row-not-nan", "zero": "bs-zero-row", "extend": "bs-extend-row"}[extrap]
+            if extrap == "extend" and ((v < t[0] and t[degree + 1] == t[0]) or (v > t[-1] and t[-degree - 2] == t[-1])):
+                sig = "bs-extend-row-knot-on-boundary"
+        if sig in seen:
+            continue
+        seen.add(sig)
+        out.append((" :: %s point=%s" % (phase, show(v)),
+                    {"phase": phase, "point": fl(v), "got_row": M[r].tolist(),
+                     "want_row": None if nanrow[r] else W[r].tolist()}, sig))
+    if M.shape[1] and inside.any():
+        ins = M[inside]
+        with np.errstate(invalid="ignore"):
+            if icpt and not np.all(np.abs(ins.sum(axis=1) - 1.0) <= TOL) and "bs-value" not in seen:
+                out.append((" :: %s rows do not sum to one inside the bounds" % phase, {"phase": phase, "got": ins.tolist()},
+                            "bs-not-partition-of-unity"))
+            if np.any(ins < -TOL):
+                out.append((" :: %s negative value inside the bounds" % phase, {"phase": phase, "got": ins.tolist()},
+                            "bs-negative"))
+    return out
+
+
+def bs_followups(state, kwargs, kw_src, t, degree, extrap, icpt, want_keys, grid):
+    """re-use the recorded state on follow-up vectors; returns findings (suffix, detail, sig)"""
+    lbr, ubr = t[0], t[-1]
+    ncols = len(want_keys)
+    out = []
+    for name, x2 in [("all", grid), ("in-range", [v for v in grid if v is None or lbr <= v <= ubr])]:
+        st = copy.deepcopy(state)
+        res = call(BS, x2, st, kwargs)
+        phase = "reuse(%s)" % name
+        d2 = {"x2": [fl(v) for v in x2], "reuse": "print(dict(bs(numpy.array(%s), %s, _state=st)))" % (pyx(x2), kw_src)}
+        has_oor = any(v is not None and not (lbr <= v <= ubr) for v in x2)
+        if not states_equal(st, state):
+            out.append((" :: %s state" % phase, dict(d2, before=repr(state), after=repr(st)), "bs-state-mutated-on-reuse"))
+        if res[0] == "ESCAPE":
+            out.append((" :: %s" % phase, dict(d2, error=res[1]), "bs-crash"))
+        elif extrap == "raise" and has_oor:
+            if res[0] != "ValueError":
+                out.append((" :: %s" % phase, dict(d2, expected="ValueError (out-of-range value)"), "bs-missing-error"))
+        elif res[0] == "ValueError":
+            out.append((" :: %s" % phase, dict(d2, error=res[1]), "bs-unexpected-error"))
+        elif list(res[1]) != want_keys or res[2].shape != (len(x2), ncols):
+            out.append((" :: %s columns" % phase, dict(d2, got_keys=list(res[1]), want_keys=want_keys), "bs-columns"))
+        else:
+            for suffix, extra, sig in bs_rows_findings(res[2], x2, t, degree, extrap, icpt, phase):
+                out.append((suffix, dict(d2, **extra), sig))
+    return out
 
 
 def drv_bs(c, ctx, col):
@@ -234,7 +300,7 @@ def drv_bs(c, ctx, col):
     icpt = c.flag()
     bmode = c.pick(ctx["bounds"])  # "default" | ("both", lo, hi) | ("lower", lo) | ("upper", hi)
     symbols = SYM_DEFAULT if bmode == "default" else SYM_OOR
-    x = choose_multiset(c, symbols, ctx["max_len"], ctx.get("min_len", 2))
+    x = choose_multiset(c, symbols, ctx["max_len"] if bmode == "default" else ctx["max_len_explicit"])
     vals = [v for v in x if v is not None]
     if not vals:
         raise Skip()
@@ -333,7 +399,6 @@ def drv_bs(c, ctx, col):
         col.count("unspecified:df-knot-outside-bounds")
         return
     col.state((degree, tuple(float(k) for k in t)))
-    lbr, ubr = t[0], t[-1]
 
     # ---- shape --------------------------------------------------------------
     ncols = degree + nknots + (1 if icpt else 0)
@@ -343,53 +408,15 @@ def drv_bs(c, ctx, col):
         return
 
     # ---- values on the training vector -------------------------------------
-    bs_check_rows(col, key, detail, M, x, t, degree, lbr, ubr, extrap, icpt, "train")
+    emit(col, key, detail, bs_rows_findings(M, x, t, degree, extrap, icpt, "train"))
 
     # ---- re-use of the state on follow-up vectors ---------------------------
     vkey = ("bs", state_digest(state), degree, icpt, extrap)
-    if vkey in _VERIFIED:
-        col.count("bs-followup-already-verified-for-this-state")
-        return
-    grid = ctx["followup"]
-    follow = [("all", grid), ("in-range", [v for v in grid if v is None or lbr <= v <= ubr])]
-    clean = True
-    for name, x2 in follow:
-        snap = copy.deepcopy(state)
-        out2 = call(BS, x2, state, kwargs)
-        has_oor = any(v is not None and not (lbr <= v <= ubr) for v in x2)
-        if not states_equal(snap, state):
-            clean = False
-            col.violation("%s :: reuse(%s) state" % (key, name), dict(detail, before=repr(snap), after=repr(state)),
-                          sig="bs-state-mutated-on-reuse")
-            state = snap
-        if out2[0] == "ESCAPE":
-            clean = False
-            col.violation("%s :: reuse(%s)" % (key, name), dict(detail, x2=[fl(v) for v in x2], error=out2[1]), sig="bs-crash")
-            continue
-        if extrap == "raise" and has_oor:
-            if out2[0] != "ValueError":
-                clean = False
-                col.violation("%s :: reuse(%s)" % (key, name), dict(detail, x2=[fl(v) for v in x2],
-                                                                   expected="ValueError (out-of-range value)"),
-                              sig="bs-missing-error")
-            continue
-        if out2[0] == "ValueError":
-            clean = False
-            col.violation("%s :: reuse(%s)" % (key, name), dict(detail, x2=[fl(v) for v in x2], error=out2[1]),
-                          sig="bs-unexpected-error")
-            continue
-        _, keys2, M2 = out2
-        if list(keys2) != want_keys or M2.shape != (len(x2), ncols):
-            clean = False
-            col.violation("%s :: reuse(%s) columns" % (key, name), dict(detail, got_keys=list(keys2), want_keys=want_keys),
-                          sig="bs-columns")
-            continue
-        d2 = dict(detail, x2=[fl(v) for v in x2],
-                  repro=detail["repro"] + "; print(dict(bs(numpy.array(%s), %s, _state=st)))" % (pyx(x2), kw_src))
-        if not bs_check_rows(col, key, d2, M2, x2, t, degree, lbr, ubr, extrap, icpt, "reuse(%s)" % name):
-            clean = False
-    if clean:
-        _VERIFIED.add(vkey)
+    if vkey not in _FOLLOW:
+        _FOLLOW[vkey] = bs_followups(state, kwargs, kw_src, t, degree, extrap, icpt, want_keys, ctx["followup"])
+    else:
+        col.count("bs-followup-result-shared-with-identical-state")
+    emit(col, key, detail, _FOLLOW[vkey])
 
 
 # ---------------------------------------------------------------------------
@@ -399,10 +426,23 @@ CLEAR_REJECTIONS = ("Unable to compute", "must be greater than or equal to", "No
                     "Invalid requested number of inner knots", "fall below lower bound", "fall above upper bound")
 
 
-def cubic_free_row(t, cyclic, lb, ub, extrap, v):
+_CUBIC_ROW = {}
+
+
+def cubic_free_row(t, cyclic, extrap, v, tk=None):
     """expected row of the unconstrained basis (None = NaN row)"""
     if v is None:
         return None
+    k = (tk or fkey(t), cyclic, extrap, float(v))
+    if k not in _CUBIC_ROW:
+        if len(_CUBIC_ROW) > 500000:
+            _CUBIC_ROW.clear()
+        _CUBIC_ROW[k] = _cubic_free_row(t, cyclic, extrap, v)
+    return _CUBIC_ROW[k]
+
+
+def _cubic_free_row(t, cyclic, extrap, v):
+    lb, ub = t[0], t[-1]
     n = len(t) - 1 if cyclic else len(t)
     fn = R.periodic_cardinal_row if cyclic else R.natural_cardinal_row
     if lb <= v <= ub:
@@ -418,6 +458,71 @@ def cubic_free_row(t, cyclic, lb, ub, extrap, v):
     raise AssertionError("raise mode with an out-of-range point")
 
 
+_CUBIC_WANT = {}
+
+
+def cubic_want(t, cyclic, extrap, xs):
+    tk = fkey(t)
+    k = (tk, cyclic, extrap, fkey(xs))
+    if k not in _CUBIC_WANT:
+        if len(_CUBIC_WANT) > 100000:
+            _CUBIC_WANT.clear()
+        n = len(t) - 1 if cyclic else len(t)
+        W, nanrow = want_matrix([cubic_free_row(t, cyclic, extrap, v, tk) for v in xs], n)
+        inside = np.array([v is not None and tk[0] <= float(v) <= tk[-1] for v in xs], dtype=bool)
+        _CUBIC_WANT[k] = (W, nanrow, inside)
+    return _CUBIC_WANT[k]
+
+
+def cubic_rows_findings(M, x, t, cyclic, extrap, Q, phase, small):
+    W, nanrow, inside = cubic_want(t, cyclic, extrap, tuple(x))
+    if Q is not None:
+        W = W @ Q
+    out, seen = [], set()
+    for r in bad_rows(M, W, nanrow):
+        v = x[r]
+        if v is None:
+            sig = "cubic-null-row-not-nan"
+        elif inside[r]:
+            sig = "cubic-value" + small
+        else:
+            sig = "cubic-%s-row%s" % (extrap, small)
+        if sig in seen:
+            continue
+        seen.add(sig)
+        out.append((" :: %s point=%s" % (phase, show(v)),
+                    {"phase": phase, "point": fl(v), "got_row": M[r].tolist(),
+                     "want_row": None if nanrow[r] else W[r].tolist()}, sig))
+    return out
+
+
+def cubic_call_follow(fn, state, kwargs, kw_src, t, extrap, want_keys, name, x2):
+    """one follow-up call on a copy of the recorded state -> (matrix | 'raised' | None, findings)"""
+    lbr, ubr = t[0], t[-1]
+    st = copy.deepcopy(state)
+    res = call(fn, x2, st, kwargs)
+    phase = "reuse(%s)" % name
+    d2 = {"x2": [fl(v) for v in x2], "reuse": "print(dict(f(numpy.array(%s), %s, _state=st)))" % (pyx(x2), kw_src)}
+    out = []
+    if not states_equal(st, state):
+        out.append((" :: %s state" % phase, dict(d2, before=repr(state), after=repr(st)), "cubic-state-mutated-on-reuse"))
+    has_oor = any(v is not None and not (lbr <= v <= ubr) for v in x2)
+    if res[0] == "ESCAPE":
+        out.append((" :: %s" % phase, dict(d2, error=res[1]), "cubic-crash"))
+        return None, out, d2
+    if extrap == "raise" and has_oor:
+        if res[0] != "ValueError":
+            out.append((" :: %s" % phase, dict(d2, expected="ValueError (out-of-range value)"), "cubic-missing-error"))
+        return "raised", out, d2
+    if res[0] == "ValueError":
+        out.append((" :: %s" % phase, dict(d2, error=res[1]), "cubic-unexpected-error"))
+        return None, out, d2
+    if list(res[1]) != want_keys or res[2].shape != (len(x2), len(want_keys)):
+        out.append((" :: %s columns" % phase, dict(d2, got_keys=list(res[1]), want_keys=want_keys), "cubic-columns"))
+        return None, out, d2
+    return res[2], out, d2
+
+
 def drv_cubic(c, ctx, col):
     kind = c.pick(ctx["kinds"])
     cons = c.pick([None, "center"])
@@ -425,7 +530,7 @@ def drv_cubic(c, ctx, col):
     bmode = c.pick(ctx["bounds"])
     cyclic = kind == "cc"
     symbols = SYM_DEFAULT if bmode == "default" else SYM_OOR
-    x = choose_multiset(c, symbols, ctx["max_len"])
+    x = choose_multiset(c, symbols, ctx["max_len"] if bmode == "default" else ctx["max_len_explicit"])
     vals = [v for v in x if v is not None]
     if not vals:
         raise Skip()
@@ -475,8 +580,12 @@ def drv_cubic(c, ctx, col):
             col.count("cubic-rejected-as-documented")
         return
     if out[0] == "ValueError":
+        if what == "df" and val < (1 if (cyclic or ncons) else 2) and "must be greater than or equal to" in out[1]:
+            col.count("cubic-rejected-as-documented")
+            return
         if any(m in out[1] for m in CLEAR_REJECTIONS):
             col.count("cubic-rejected-with-clear-error")
+            col.violation(key + " :: train", dict(detail, error=out[1]), sig="cubic-unexpected-rejection")
             return
         sig = "cubic-unclear-error-two-knots" if (not cyclic and n_inner == 0) else "cubic-unclear-error"
         col.violation(key + " :: train", dict(detail, error=out[1]), sig=sig)
@@ -495,9 +604,9 @@ def drv_cubic(c, ctx, col):
     if what == "knots":
         cands = [sorted(set([lb, ub] + list(val)))]
     else:
+        # "equally spaced quantiles of the input data falling between the bounds": of the distinct values (mgcv/patsy)
+        # or of the raw values - the docstrings do not say; out-of-range training values as for bs
         cands = [[lb] + R.quantiles7(sorted(set(inr)), n_inner) + [ub], [lb] + R.quantiles7(inr, n_inner) + [ub]]
-        if oor:
-            cands += [[lb] + R.quantiles7(sorted(set(vals)), n_inner) + [ub], [lb] + R.quantiles7(vals, n_inner) + [ub]]
     if len(rec) != n_inner + 2 or not any(all(close(a, b) for a, b in zip(rec, cand)) for cand in cands):
         col.violation(key + " :: state knots", dict(detail, recorded=state["knots"], want=[float(a) for a in cands[0]]),
                       sig="cubic-state-knots")
@@ -508,7 +617,6 @@ def drv_cubic(c, ctx, col):
                       sig="cubic-state-knots")
         return
     col.state((kind, tuple(float(k) for k in t), cons))
-    lbr, ubr = t[0], t[-1]
     nfree = len(t) - 1 if cyclic else len(t)
     ncols = nfree - ncons
     small = "-fewer-than-3-segments" if (cyclic and nfree < 3) else ""
@@ -518,74 +626,14 @@ def drv_cubic(c, ctx, col):
         col.violation(key + " :: columns", dict(detail, got_keys=list(keys), want_keys=want_keys), sig="cubic-columns")
         return
 
-    def run_follow(name, x2):
-        """evaluate on x2 with the recorded state; returns the matrix or None (violations already reported)"""
-        nonlocal state
-        snap = copy.deepcopy(state)
-        out2 = call(fn, x2, state, kwargs)
-        if not states_equal(snap, state):
-            col.violation("%s :: reuse(%s) state" % (key, name), dict(detail, before=repr(snap), after=repr(state)),
-                          sig="cubic-state-mutated-on-reuse")
-            state = snap
-            return None
-        has_oor = any(v is not None and not (lbr <= v <= ubr) for v in x2)
-        if out2[0] == "ESCAPE":
-            col.violation("%s :: reuse(%s)" % (key, name), dict(detail, x2=[fl(v) for v in x2], error=out2[1]), sig="cubic-crash")
-            return None
-        if extrap == "raise" and has_oor:
-            if out2[0] != "ValueError":
-                col.violation("%s :: reuse(%s)" % (key, name), dict(detail, x2=[fl(v) for v in x2],
-                                                                   expected="ValueError (out-of-range value)"),
-                              sig="cubic-missing-error")
-            return "raised"
-        if out2[0] == "ValueError":
-            col.violation("%s :: reuse(%s)" % (key, name), dict(detail, x2=[fl(v) for v in x2], error=out2[1]),
-                          sig="cubic-unexpected-error")
-            return None
-        _, keys2, M2 = out2
-        if list(keys2) != want_keys or M2.shape != (len(x2), ncols):
-            col.violation("%s :: reuse(%s) columns" % (key, name), dict(detail, got_keys=list(keys2), want_keys=want_keys),
-                          sig="cubic-columns")
-            return None
-        return M2
-
-    def check_rows(M_, x_, phase, Q, extra=None):
-        """rows == reference free row (times Q when constrained); first failure per class"""
-        seen = set()
-        for r, v in enumerate(x_):
-            free = cubic_free_row(t, cyclic, lbr, ubr, extrap, v)
-            if free is None:
-                want = None
-            elif Q is None:
-                want = free
-            else:
-                want = list(np.array([float(a) for a in free]) @ Q)
-            if not row_close(M_[r], want):
-                inside = v is not None and lbr <= v <= ubr
-                if v is None:
-                    sig = "cubic-null-row-not-nan"
-                elif inside:
-                    sig = "cubic-value" + small
-                else:
-                    sig = "cubic-%s-row%s" % (extrap, small)
-                if sig in seen:
-                    continue
-                seen.add(sig)
-                d = dict(detail, phase=phase, point=fl(v), got_row=M_[r].tolist(),
-                         want_row=None if want is None else [float(a) for a in want])
-                if extra:
-                    d.update(extra)
-                col.violation("%s :: %s point=%s" % (key, phase, show(v)), d, sig=sig)
-        return not seen
-
     # ---- the constraint map (constrained columns expressed in the cardinal basis) -------------------------
     Q = None
+    vkey = (kind, state_digest(state), cons, extrap)
     if cons:
         # Docstring: the centering constraint is computed from the input data.  Nulls (and, with 'na', out-of-range
         # values, which "are set to nan") are rows that the materializer later drops: the constraint must not be
         # poisoned by them.
-        poisoned = not np.all(np.isfinite(np.asarray(state["constraints"], dtype=float)))
-        if poisoned:
+        if not np.all(np.isfinite(np.asarray(state["constraints"], dtype=float))):
             if has_null or (extrap == "na" and oor):
                 col.violation(key + " :: centering constraint is NaN", dict(detail, constraints=repr(state["constraints"]),
                                                                            got=M.tolist()),
@@ -594,9 +642,14 @@ def drv_cubic(c, ctx, col):
                 col.violation(key + " :: centering constraint is NaN", dict(detail, constraints=repr(state["constraints"])),
                               sig="cubic-center-constraint-not-finite")
             return
-        # cardinal basis => the rows of the constrained basis at the knots ARE the map Q (free = I at the knots)
-        kn = list(t[:-1]) if cyclic else list(t)
-        MQ = run_follow("knots", kn)
+        # cardinal basis => the rows of the constrained basis at the knots ARE the map Q (free basis = I at the knots)
+        qkey = ("Q",) + vkey
+        if qkey not in _FOLLOW:
+            kn = list(t[:-1]) if cyclic else list(t)
+            MQ, fnd, _ = cubic_call_follow(fn, state, kwargs, kw_src, t, extrap, want_keys, "knots", kn)
+            _FOLLOW[qkey] = (MQ, fnd)
+        MQ, fnd = _FOLLOW[qkey]
+        emit(col, key, detail, fnd)
         if MQ is None or isinstance(MQ, str):
             return
         Q = MQ
@@ -608,48 +661,43 @@ def drv_cubic(c, ctx, col):
         if extrap == "zero" and oor:
             col.count("unspecified:centering-with-zeroed-out-of-range-training-rows")
         else:
-            rows = [cubic_free_row(t, cyclic, lbr, ubr, extrap, v) for v in x]
+            W, nanrow, _ = cubic_want(t, cyclic, extrap, tuple(x))
+            live = ~nanrow
+            rows = [cubic_free_row(t, cyclic, extrap, v) for v in x]
             rows = [r for r in rows if r is not None]
             cref = [sum(r[i] for r in rows) / len(rows) for i in range(nfree)]
             resid = np.array([float(a) for a in cref]) @ Q
-            live = M[[i for i, v in enumerate(x) if cubic_free_row(t, cyclic, lbr, ubr, extrap, v) is not None]]
-            means = live.mean(axis=0) if live.size else np.zeros(ncols)
+            means = M[live].mean(axis=0)
             if not (np.all(np.abs(resid) <= TOL) and np.all(np.isfinite(means)) and np.all(np.abs(means) <= TOL)):
                 col.violation(key + " :: column means on the training data", dict(detail, column_means=means.tolist(),
                                                                                  reference_mean_times_Q=resid.tolist()),
                               sig="cubic-center-nonzero-mean" + small)
                 return
-    else:
-        if state["constraints"] is not None:
-            col.violation(key + " :: state constraints", dict(detail, state=repr(state)), sig="cubic-state-keys")
-            return
+    elif state["constraints"] is not None:
+        col.violation(key + " :: state constraints", dict(detail, state=repr(state)), sig="cubic-state-keys")
+        return
 
     # ---- values on the training vector -------------------------------------
-    check_rows(M, x, "train", Q)
+    emit(col, key, detail, cubic_rows_findings(M, x, t, cyclic, extrap, Q, "train", small))
 
     # ---- re-use of the state on follow-up vectors ---------------------------
-    vkey = (kind, state_digest(state), cons, extrap)
-    if vkey in _VERIFIED:
-        col.count("cubic-followup-already-verified-for-this-state")
-        return
-    grid = ctx["followup_df"] if what == "df" else ctx["followup"]
-    follow = [("all", grid), ("in-range", [v for v in grid if v is None or lbr <= v <= ubr])]
-    if not cons:
-        follow.append(("knots", list(t)))
-    clean = True
-    for name, x2 in follow:
-        M2 = run_follow(name, x2)
-        if M2 is None:
-            clean = False
-            continue
-        if isinstance(M2, str):
-            continue
-        d2 = {"x2": [fl(v) for v in x2],
-              "repro": detail["repro"] + "; print(dict(f(numpy.array(%s), %s, _state=st)))" % (pyx(x2), kw_src)}
-        if not check_rows(M2, x2, "reuse(%s)" % name, Q, d2):
-            clean = False
-    if clean:
-        _VERIFIED.add(vkey)
+    if vkey not in _FOLLOW:
+        grid = ctx["followup_df"] if what == "df" else ctx["followup"]
+        follow = [("all", grid), ("in-range", [v for v in grid if v is None or t[0] <= v <= t[-1]])]
+        if not cons:
+            follow.append(("knots", list(t)))
+        fnd = []
+        for name, x2 in follow:
+            M2, f2, d2 = cubic_call_follow(fn, state, kwargs, kw_src, t, extrap, want_keys, name, x2)
+            fnd += f2
+            if M2 is None or isinstance(M2, str):
+                continue
+            for suffix, extra, sig in cubic_rows_findings(M2, x2, t, cyclic, extrap, Q, "reuse(%s)" % name, small):
+                fnd.append((suffix, dict(d2, **extra), sig))
+        _FOLLOW[vkey] = fnd
+    else:
+        col.count("cubic-followup-result-shared-with-identical-state")
+    emit(col, key, detail, _FOLLOW[vkey])
 
 
 # ---------------------------------------------------------------------------
@@ -663,45 +711,50 @@ def subchecks(tier, seed):
     selftest()
     quick = tier == "quick"
     both = ("both", 0, 4)
-    subs = []
+    narrow = ("both", F(1, 2), 3)
+    degs = [0, 1, 2, 3, 4, 5]
     if quick:
-        subs.append(Sub("bs-knots", drv_bs,
-                        {"mode": "knots", "degrees": [0, 1, 2, 3, 4, 5], "bounds": ["default", both], "max_len": 3,
-                         "followup": FINE},
-                        shard_depth=4, bounds={"x": "sorted multisets of 2..3 grid symbols", "degree": "0..5",
-                                               "knots": "subsets of <= 2 interior grid points + one doubled knot",
-                                               "bounds": "default | explicit (0,4)", "follow-up grid": "k/8, -1..5, + null"}))
-        subs.append(Sub("bs-df", drv_bs,
-                        {"mode": "df", "degrees": [0, 1, 2, 3, 4, 5], "bounds": ["default", both], "max_len": 4,
-                         "followup": COARSE},
-                        shard_depth=4, bounds={"x": "sorted multisets of 2..4 grid symbols", "degree": "0..5",
-                                               "df": "degree..degree+3", "bounds": "default | explicit (0,4)",
-                                               "follow-up grid": "14 points in -1..5 + null"}))
-        subs.append(Sub("cubic", drv_cubic,
-                        {"kinds": ["cr", "cc"], "bounds": ["default", both], "max_len": 3, "dfs": [3, 4, 5],
-                         "followup": FINE, "followup_df": COARSE},
-                        shard_depth=4, bounds={"x": "sorted multisets of 2..3 grid symbols", "df": "3..5",
-                                               "knots": "subsets of <= 2 interior grid points",
-                                               "constraints": "None | 'center'", "bounds": "default | explicit (0,4)"}))
+        L = {"bs-knots": (3, 2), "bs-df": (4, 3), "cubic": (3, 3)}
+        bnd = {"bs-knots": ["default", both], "bs-df": ["default", both], "cubic": ["default", both]}
+        kinds, dfs = ["cr", "cc"], [3, 4, 5]
     else:
-        narrow = ("both", F(1, 2), 3)
-        subs.append(Sub("bs-knots", drv_bs,
-                        {"mode": "knots", "degrees": [0, 1, 2, 3, 4, 5],
-                         "bounds": ["default", both, narrow, ("lower", 0), ("upper", 4)], "max_len": 4, "followup": FINE},
-                        shard_depth=4, bounds={"x": "sorted multisets of 2..4 grid symbols", "degree": "0..5",
-                                               "knots": "subsets of <= 2 interior grid points + one doubled knot",
-                                               "bounds": "default | (0,4) | (1/2,3) | lower only | upper only",
-                                               "follow-up grid": "k/8, -1..5, + null"}))
-        subs.append(Sub("bs-df", drv_bs,
-                        {"mode": "df", "degrees": [0, 1, 2, 3, 4, 5], "bounds": ["default", both, narrow], "max_len": 5,
-                         "followup": COARSE},
-                        shard_depth=4, bounds={"x": "sorted multisets of 2..5 grid symbols", "degree": "0..5",
-                                               "df": "degree..degree+3", "bounds": "default | (0,4) | (1/2,3)",
-                                               "follow-up grid": "14 points in -1..5 + null"}))
-        subs.append(Sub("cubic", drv_cubic,
-                        {"kinds": ["cr", "cs", "cc"], "bounds": ["default", both, narrow], "max_len": 4, "dfs": [2, 3, 4, 5, 6],
-                         "followup": FINE, "followup_df": COARSE},
-                        shard_depth=4, bounds={"x": "sorted multisets of 2..4 grid symbols", "df": "2..6",
-                                               "knots": "subsets of <= 2 interior grid points",
-                                               "constraints": "None | 'center'", "bounds": "default | (0,4) | (1/2,3)"}))
-    return subs
+        L = {"bs-knots": (4, 4), "bs-df": (5, 5), "cubic": (4, 4)}
+        bnd = {"bs-knots": ["default", both, narrow, ("lower", 0), ("upper", 4)], "bs-df": ["default", both, narrow],
+               "cubic": ["default", both, narrow]}
+        kinds, dfs = ["cr", "cs", "cc"], [2, 3, 4, 5, 6]
+
+    def btxt(name):
+        return " | ".join("default (from the data)" if b == "default" else
+                          "explicit " + "/".join(str(v) for v in b[1:]) if b[0] == "both" else "%s bound only (%s)" % (b[0], b[1])
+                          for b in bnd[name])
+
+    def xtxt(name):
+        return ("sorted multisets of 2..%d symbols of {0,1/2,1,3/2,2,3,4,null} with default bounds; of 2..%d symbols of "
+                "{-1,0,1/2,1,3/2,2,3,4,5,null} with explicit bounds; >= 2 distinct in-range values" % L[name])
+
+    return [
+        Sub("bs-knots", drv_bs,
+            {"mode": "knots", "degrees": degs, "bounds": bnd["bs-knots"], "max_len": L["bs-knots"][0],
+             "max_len_explicit": L["bs-knots"][1], "followup": FINE},
+            shard_depth=4,
+            bounds={"x": xtxt("bs-knots"), "degree": "0..5", "include_intercept": "False | True",
+                    "knots": "every subset of <= 2 grid points strictly inside the bounds + every doubled knot",
+                    "bounds": btxt("bs-knots"), "extrapolation": EXTRAP,
+                    "follow-up vectors (state re-use)": "k/8 for k=-8..40 plus a null; its in-range part plus a null"}),
+        Sub("bs-df", drv_bs,
+            {"mode": "df", "degrees": degs, "bounds": bnd["bs-df"], "max_len": L["bs-df"][0],
+             "max_len_explicit": L["bs-df"][1], "followup": COARSE},
+            shard_depth=4,
+            bounds={"x": xtxt("bs-df"), "degree": "0..5", "include_intercept": "False | True", "df": "degree..degree+3",
+                    "bounds": btxt("bs-df"), "extrapolation": EXTRAP,
+                    "follow-up vectors (state re-use)": "13 dyadic points in -1..5 plus a null; its in-range part plus a null"}),
+        Sub("cubic", drv_cubic,
+            {"kinds": kinds, "bounds": bnd["cubic"], "max_len": L["cubic"][0], "max_len_explicit": L["cubic"][1],
+             "dfs": dfs, "followup": FINE, "followup_df": COARSE},
+            shard_depth=4,
+            bounds={"transforms": kinds, "x": xtxt("cubic"), "df": "%d..%d" % (dfs[0], dfs[-1]),
+                    "knots": "every subset of <= 2 grid points strictly inside the bounds",
+                    "constraints": "None | 'center'", "bounds": btxt("cubic"), "extrapolation": EXTRAP,
+                    "follow-up vectors (state re-use)": "the recorded knots; k/8 grid (explicit knots) or 13 dyadic points "
+                                                        "(df) in -1..5 plus a null; its in-range part"}),
+    ]
